@@ -18,8 +18,8 @@ LEVEL_NOTE = 'No reference model: the identities are the oracle. Crystals with o
 
 TOL, TOL_VB = 1e-9, 'max(1e-7, 20 x measured GF diffusion-equation residual of the node)'
 QUICK = [('FCC', 0, 1), ('BCC', 0, 1), ('HCP', 0, 1), ('SQUARE', 0, 1), ('HONEY', 0, 1), ('OMEGA', 0, 1), ('FCC', 0, 2),
-         ('RECTM', 0, 1), ('B2', 0, 1), ('ROMEGA', 0, 1), ('DIAMOND', 0, 1), ('HCP15', 1, 1), ('NBO', 0, 1)]
-THOROUGH = QUICK + [('SC', 0, 1), ('TET', 1, 1), ('TRIA', 0, 1), ('KAGOME', 0, 1), ('L12', 0, 1), ('WURTZ2', 0, 1), ('FCC', 1, 1),
+         ('RECTM', 0, 1), ('DIAMOND', 0, 1), ('HCP15', 1, 1), ('NBO', 0, 1)]
+THOROUGH = QUICK + [('B2', 0, 1), ('ROMEGA', 0, 1), ('SC', 0, 1), ('TET', 1, 1), ('TRIA', 0, 1), ('KAGOME', 0, 1), ('L12', 0, 1), ('WURTZ2', 0, 1), ('FCC', 1, 1),
                     ('BCC', 0, 2), ('HCP', 0, 2), ('SQUARE', 0, 2), ('HONEY', 0, 2), ('OMEGA', 0, 2), ('B2', 0, 2), ('RECTM', 0, 2),
                     ('ORTH', 2, 1), ('TRIC', 1, 1), ('PYROPE', 0, 1)]
 CHUNK = 40
@@ -27,7 +27,7 @@ CHUNK = 40
 
 def BOUNDS(tier):
     return {'crystals': QUICK if tier == 'quick' else THOROUGH, 'bases': ['T', 'G1', 'G2', 'X'], 'letters': vm.LETTER_NAMES,
-            'k': 2 if tier == 'quick' else 3, 'tol': TOL, 'tol_vb': TOL_VB}
+            'k': '2 (1 for crystals with > 4 vacancy classes; base X: 1)' if tier == 'quick' else '3 (2 for > 8 vacancy classes)', 'tol': TOL, 'tol_vb': TOL_VB}
 
 
 def _vcoords(ent):
@@ -40,9 +40,9 @@ def cases(tier):
     for (name, icut, N) in (QUICK if tier == 'quick' else THOROUGH):
         ent = vm.calculator(name, icut, N)
         vc = _vcoords(ent)
-        kk = k if len(vc) <= 8 else k - 1
+        kk = k if len(vc) <= (4 if tier == 'quick' else 8) else k - 1
         devs = vm.dev_sets(len(vm.coordinates(ent)), len(vm.LETTERS), kk, kinds_filter=vc)
-        nodes = [(b, d) for b in ('T', 'G1', 'G2', 'X') for d in devs]
+        nodes = [(b, d) for b in ('T', 'G1', 'G2', 'X') for d in devs if not (tier == 'quick' and b == 'X' and len(d) > 1)]
         for c in range(0, len(nodes), CHUNK):
             out.append({'key': '{}/{}/N{}/chunk{}'.format(name, icut, N, c // CHUNK), 'crystal': name, 'icut': icut, 'N': N,
                         'nodes': [[b, [list(x) for x in d]] for b, d in nodes[c:c + CHUNK]], 'cost': N})
